@@ -30,8 +30,8 @@ RULE = ('cases = random edit history of 3-12 steps over random specs (add node w
 ASSUMPTIONS = ['copies get a new model name by design; run metadata (model name) is therefore not generated in C14 specs',
                'node-level AdaptiveDistance state lists are not part of these specs']
 CONFIG = {
-    'quick': {'shards': 16, 'cases': 30, 'timeout': 600, 'floor': 100},
-    'thorough': {'shards': 32, 'cases': 800, 'timeout': 3000, 'floor': 6000},
+    'quick': {'shards': 16, 'cases': 360, 'timeout': 600, 'floor': 1200},
+    'thorough': {'shards': 32, 'cases': 8000, 'timeout': 5400, 'floor': 60000},
 }
 REQUIRED = ['steps_checked', 'structure_compared', 'meaning_terms_compared', 'watched_checks', 'op_add', 'op_become', 'op_remove',
             'op_flags', 'op_obs', 'op_copy', 'op_saveload', 'copy_output_comparisons']
